@@ -13,14 +13,15 @@ for f in sorted(glob.glob('/verif/seeded/*/meta.json')):
             if l and not l.startswith('#'):
                 first = l[:160]
                 break
-    rows.append((m['id'], m['property'], 'yes' if q.get('detected') else 'NO', '; '.join(q.get('reported', [])[:2])[:150], first))
+    fp = 'round 1 (DESIGN §8)' if m['id'][-2:] in ('m1', 'm2') else 'missed, check strengthened' if 'first_pass' in m.get('check_results', {}) else ('yes' if q.get('detected') else 'NO')
+    rows.append((m['id'], m['property'], fp, 'yes' if q.get('detected') else 'NO', '; '.join(q.get('reported', [])[:2])[:150], first))
 with open('/verif/seeded/INDEX.md', 'w') as o:
     o.write('# Seeded property-breaking changes\n\n')
     o.write('Each directory holds `patch.diff` (applies to /repo HEAD named in meta.json), the demonstration test(s), the seeder\'s `NOTES.md` '
             '(what the change is, what it needs to manifest, what was run) and `meta.json` (independent confirmation by `tools/confirm_seed.sh`, '
             'result of the property\'s quick check by `tools/seedcheck.sh`).  All changes compile and keep the unedited suite green.\n\n')
-    o.write('| id | property | detected by quick check | reported as | change (first line of the notes) |\n|---|---|---|---|---|\n')
+    o.write('| id | property | when it arrived | detected by quick check now | reported as | change (first line of the notes) |\n|---|---|---|---|---|---|\n')
     for r in rows:
         o.write('| ' + ' | '.join(x.replace('|', '/') for x in r) + ' |\n')
-    o.write(f'\n{sum(1 for r in rows if r[2]=="yes")} of {len(rows)} detected.\n')
+    o.write(f'\n{sum(1 for r in rows if r[3]=="yes")} of {len(rows)} detected by the current quick checks; of the round-2 changes (m3, m4) {sum(1 for r in rows if r[2]=="yes")} of {sum(1 for r in rows if not r[2].startswith("round 1"))} were detected by the checks as they were when the change arrived; of the 40 round-1 changes (m1, m2) 23 were (per-change table in DESIGN.md §8).\n')
 print(len(rows), 'entries')
